@@ -229,7 +229,8 @@ impl Model for QfModel {
         if s.off > 4 {
             return vec![];
         }
-        (0..self.cfg.universe.len()).collect()
+        // op n = clear()
+        (0..=self.cfg.universe.len()).collect()
     }
 
     fn key(&self, s: &St) -> Vec<u8> {
@@ -245,6 +246,24 @@ impl Model for QfModel {
 
     fn step(&self, s: &mut St, op: &usize) -> Result<u32, Violation> {
         let cfg = &self.cfg;
+        if *op == cfg.universe.len() {
+            // clear(): the reference starts over
+            if let Err(p) = mccore::panics::catch(|| s.f.clear()) {
+                return Err(viol("C19", format!("{} clear panics", cfg.label), format!("clear() panicked: {}", p)));
+            }
+            s.set = 0;
+            s.inserted = 0;
+            s.hist.clear();
+            let mut vs = self.check_state_all(s, "after clear()");
+            if let Some(i) = vs.iter().position(|v| v.property == self.focus) {
+                return Err(vs.swap_remove(i));
+            }
+            if !vs.is_empty() || s.off > 0 {
+                self.other.fetch_add(vs.len() as u64, std::sync::atomic::Ordering::Relaxed);
+                s.off = s.off.saturating_add(1);
+            }
+            return Ok(5);
+        }
         let k = cfg.universe[*op];
         let c = self.classes.class_of[*op];
         let known = (s.set >> c) & 1 == 1;
@@ -315,7 +334,7 @@ pub fn found_to_viol(cfg: &QfCfg, f: &bfs::Found, extra: Value) -> Viol {
             "structure": "QuotientFilter",
             "config": {"bits_quotient": cfg.q, "bits_remainder": cfg.r, "hasher": "identity (finish = Key payload)"},
             "universe": cfg.universe,
-            "trace": f.trace.iter().map(|t| json!({"op": format!("insert(universe[{}]={:#x})", t.op_index, cfg.universe[t.op_index]), "op_index": t.op_index, "picks": t.picks})).collect::<Vec<_>>(),
+            "trace": f.trace.iter().map(|t| json!({"op": if t.op_index < cfg.universe.len() { format!("insert(universe[{}]={:#x})", t.op_index, cfg.universe[t.op_index]) } else { "clear()".to_string() }, "op_index": t.op_index, "picks": t.picks})).collect::<Vec<_>>(),
             "extra": extra,
         }),
     }
